@@ -1,6 +1,7 @@
 package main
 
 import (
+	"time"
 	"bytes"
 	"encoding/binary"
 	"fmt"
@@ -343,8 +344,60 @@ func (c *corruptExec) runCase(base string, f corruptFault, mode string) {
 	}
 	results := make([]result, len(plan.Keys))
 	done := false
+	// in a third of the rescan cases the damaged files are then garbage collected (and the store
+	// restarted once more): every key must go on reading what it read after the rescan, and GC
+	// must leave files the store can open again
+	gcAfter := mode == "rescan" && len(cfg.Served) > 0 && (uint64(f.Off)*31+uint64(f.Arg)*7+plan.Seed)%3 == 0
+	gcRan := false
+	var preGC map[int]dataSnap // the damaged files as the rescan saw them (before GC rewrote them)
+	var results2 []result
+	readAll := func(cl *PClient) []result {
+		out := make([]result, len(plan.Keys))
+		for k, key := range plan.Keys {
+			r := cl.Do(cmdGet(string(key)))
+			switch {
+			case r.Budget:
+				out[k].err = "budget"
+			case r.Malformed != "" || r.Closed || r.NoReply:
+				out[k].err = "protocol: " + r.String()
+			case r.Status != "END":
+				out[k].err = r.Status + " " + r.Msg
+			case len(r.Items) == 1:
+				out[k].hit = true
+				out[k].val = r.Items[0].Bytes
+				out[k].flag = r.Items[0].Flag
+			}
+		}
+		return out
+	}
 	g, res := sim2.Run(func(g *Gen) {
 		cl := g.NewConn()
+		defer func() {
+			if !gcAfter || !done {
+				return
+			}
+			g.W.WaitIdle()
+			g.W.Advance(2 * time.Second)
+			g.W.WaitIdle()
+			preGC = map[int]dataSnap{}
+			for _, b := range cfg.Served {
+				preGC[b] = snapshotDataFiles(sim2.bucketDir(b))
+			}
+			for _, b := range cfg.Served {
+				n := g.W.NumTasks()
+				if _, _, err := g.H.GC(b, 0, -1, 0, false, false); err != nil {
+					continue
+				}
+				if !g.W.WaitCondTimeout("gc-done", 2*time.Hour, func() bool { return g.W.TasksDone("store.gcMgr.gc", n) }) {
+					return
+				}
+				gcRan = true
+			}
+			if gcRan {
+				results2 = readAll(cl)
+				g.H.Close()
+			}
+		}()
 		for k, key := range plan.Keys {
 			r := cl.Do(cmdGet(string(key)))
 			switch {
@@ -371,6 +424,55 @@ func (c *corruptExec) runCase(base string, f corruptFault, mode string) {
 	x.out.Steps += sim2.Steps
 	x.out.SimNS += sim2.SimNS
 	desc := fmt.Sprintf("fault %s (%s reads)", f, mode)
+	if gcRan && res.Status == simrt.StatusDone && results2 != nil {
+		x.out.probe("gc-over-damaged-files")
+		same := func(phase string, after []result) bool {
+			for k, key := range plan.Keys {
+				a, b := results[k], after[k]
+				if x.m.Keys[k].Unserved || a.err != "" || b.err == "budget" {
+					continue
+				}
+				if a.hit != b.hit || !bytes.Equal(a.val, b.val) || a.flag != b.flag || b.err != "" {
+					got := "miss"
+					if b.err != "" {
+						got = "error " + trunc(b.err, 150)
+					} else if b.hit {
+						got = fmt.Sprintf("%d bytes %q", len(b.val), trunc(string(b.val), 30))
+					}
+					was := "miss"
+					if a.hit {
+						was = fmt.Sprintf("%d bytes %q", len(a.val), trunc(string(a.val), 30))
+					}
+					x.failSub("R-corrupt-gc-changed-read", phase, fmt.Sprintf("%s: key k%d %q read %s after the rescan; %s it reads %s", desc, k, trunc(string(key), 30), was, phase, got))
+					return false
+				}
+			}
+			return true
+		}
+		if !same("after GC over the damaged files", results2) {
+			return
+		}
+		// and once more after a clean restart
+		var results3 []result
+		g3, res3 := sim2.Run(func(g *Gen) {
+			results3 = readAll(g.NewConn())
+		})
+		x.out.Steps += sim2.Steps
+		if g3.OpenErr != nil || res3.Status == simrt.StatusFatal {
+			msg := res3.Msg
+			if g3.OpenErr != nil {
+				msg = g3.OpenErr.Error()
+			}
+			x.failSub("R-corrupt-gc-changed-read", "refused-after-gc", fmt.Sprintf("%s: after GC over the damaged files and a clean shutdown the store refuses to start: %s", desc, trunc(msg, 200)))
+			return
+		}
+		if res3.Status == simrt.StatusDone && results3 != nil {
+			if !same("after GC and a clean restart", results3) {
+				return
+			}
+			x.out.probe("gc-over-damaged-files-restart-checked")
+		}
+	}
 	refused := g.OpenErr != nil || res.Status == simrt.StatusFatal
 	// independent view of the damaged files
 	type drec struct {
@@ -383,6 +485,9 @@ func (c *corruptExec) runCase(base string, f corruptFault, mode string) {
 	for _, b := range cfg.Served {
 		bdir := sim2.bucketDir(b)
 		snap := snapshotDataFiles(bdir)
+		if preGC != nil {
+			snap = preGC[b]
+		}
 		var names []string
 		for n := range snap {
 			names = append(names, n)
